@@ -7,3 +7,4 @@ from . import statemachine  # noqa: F401
 from . import events  # noqa: F401
 from . import entry  # noqa: F401
 from . import construct  # noqa: F401
+from . import graph  # noqa: F401
